@@ -34,6 +34,9 @@ RESP = [
     {"k": "resp", "status": 302, "headers": [["Location", "/next"]], "body": "moved"},
     {"k": "resp", "status": 303, "headers": [["Location", "/next"]], "body": "moved", "keepalive": False},
     {"k": "resp", "status": 307, "headers": [["Location", "/next"]], "body": "moved"},
+    {"k": "resp", "status": 302, "headers": [["Location", "/next"]], "body": ""},
+    {"k": "resp", "status": 307, "headers": [["Location", "/next"]], "body": "", "keepalive": False},
+    {"k": "resp", "status": 503, "body": ""},
     {"k": "resp", "status": 503, "body": "busy"},
     {"k": "resp", "status": 503, "body": "busy-close", "keepalive": False},
     {"k": "resp", "status": 429, "headers": [["Retry-After", "1"]], "body": "slow"},
@@ -216,6 +219,13 @@ def run_case(rec: Recorder, case: dict[str, typing.Any]) -> None:
                     if isinstance(exc, Exception):
                         if not isinstance(exc, HTTPError):
                             rec.fail(case, "non-urllib3-exception", dict(shape, msg=str(exc)[:100], during="urlopen"), f"urlopen raised {type(exc).__name__}: {exc!s:.120}")
+                            return
+                        rec.mon("starvation")
+                        leased = sum(1 for r, _ in held if getattr(r, "_connection", None) is not None)
+                        if isinstance(exc, EmptyPoolError) and cfg["block"] and leased < N:
+                            # single-threaded history: a request can only find the pool empty when every slot is leased to a
+                            # response the caller still holds; otherwise the call starved itself (held a slot and asked again)
+                            rec.fail(case, "request-starved-although-slots-free", dict(shape, leased=leased, maxsize=N, preload=cfg["preload"], release_conn=cfg["release_conn"]), f"EmptyPoolError with {leased} of {N} slots leased to the caller")
                             return
                     else:
                         rec.mon("interrupt_identity")
